@@ -13,7 +13,7 @@ import (
 )
 
 // openKVStore opens the adapter named by cfg below dir.
-func openKVStore(cfg KVCfg, dir string) (store.KVStore, store.MergeOperator, error) {
+func openKVStore(cfg KVCfg, dir string) (store.KVStore, store.MergeOperator, *mossGate, error) {
 	var mo store.MergeOperator = appendMO{}
 	if cfg.MO == "counter" {
 		mo = counterMO{}
@@ -36,12 +36,22 @@ func openKVStore(cfg KVCfg, dir string) (store.KVStore, store.MergeOperator, err
 		kcfg["path"] = filepath.Join(dir, "kv")
 		kcfg["initialMmapSize"] = 64 << 20
 	}
+	var gate *mossGate
+	if cfg.Store == "moss" && cfg.MossGate {
+		gate = newMossGate()
+		kcfg["mossCollectionOptionsName"] = gate.name
+	}
 	ctor := registry.KVStoreConstructorByName(name)
 	if ctor == nil {
-		return nil, nil, fmt.Errorf("no KV store %s", name)
+		gate.done()
+		return nil, nil, nil, fmt.Errorf("no KV store %s", name)
 	}
 	st, err := ctor(mo, kcfg)
-	return st, mo, err
+	if err != nil {
+		gate.done()
+		gate = nil
+	}
+	return st, mo, gate, err
 }
 
 func scanAll(r store.KVReader) string {
@@ -81,7 +91,8 @@ func kvConcScenario(c *core.Ctx, cfg KVCfg, wl KVWL) {
 	s := env.S
 	defer env.Finish()
 	sig := map[string]string{"store": cfg.Store, "mode": "concurrent"}
-	st, mo, err := openKVStore(cfg, c.Dir)
+	st, mo, gate, err := openKVStore(cfg, c.Dir)
+	defer gate.done()
 	if err != nil {
 		c.Res.Harness = "open store: " + err.Error()
 		return
@@ -122,6 +133,12 @@ func kvConcScenario(c *core.Ctx, cfg KVCfg, wl KVWL) {
 			}
 			done++
 			_ = w.Close()
+			if gate != nil && gate.due(op.MR) {
+				// the scheduler's quiescence wait at this yield lets the merger run until it is idle
+				gate.set(false)
+				s.Yield("moss.merger")
+				gate.set(true)
+			}
 			s.Yield("writer-between-batches")
 		}
 	})
@@ -212,6 +229,7 @@ func kvConcScenario(c *core.Ctx, cfg KVCfg, wl KVWL) {
 		}
 		_ = r.Close()
 	}
+	gate.done()
 	if err := st.Close(); err != nil {
 		c.Violate("close-error", sig, s.Steps, "store Close: %v", err)
 	}
